@@ -181,7 +181,30 @@ def bare_alias():
   def c7():
     m = Holder(fresh())
     return nnx.vmap(lambda a, b: a.v.value + b.v.value, in_axes=(0, None))(m, m)
+  class Half(nnx.Module):
+    def __init__(self, w):
+      self.w = w
+
+  class Tied(nnx.Module):
+    def __init__(self):
+      w = nnx.Param(jnp.arange(1.0, 4.0))
+      self.enc = Half(w)
+      self.dec = Half(w)
+  def t1():
+    return nnx.vmap(lambda m, x: m.enc.w.value * 10 + m.dec.w.value.sum() + x,
+                    in_axes=(nnx.StateAxes({nnx.PathContains('enc'): 0, nnx.PathContains('dec'): None}), 0))(Tied(), jnp.zeros((3,)))
+  def t2():
+    return nnx.vmap(lambda m: m.enc.w.value * 10 + m.dec.w.value.sum(),
+                    in_axes=(nnx.StateAxes({nnx.PathContains('dec'): None, nnx.PathContains('enc'): 0}),), axis_size=3)(Tied())
+  def t3():
+    return nnx.scan(lambda m, c: c + m.dec.w.value.sum(), in_axes=(nnx.StateAxes({nnx.PathContains('enc'): nnx.Carry, nnx.PathContains('dec'): 0}), nnx.Carry),
+                    out_axes=nnx.Carry)(Tied(), jnp.zeros(()))
   out = {}
+  # one module, the same Variable at two paths, consistent path-based specifications: one object
+  out['_consistent_tied'] = safe(lambda: np.asarray(nnx.vmap(lambda m: m.enc.w.value + m.dec.w.value,
+                                                            in_axes=(nnx.StateAxes({nnx.PathContains('enc'): 0, nnx.PathContains('dec'): 0}),))(Tied())).tolist())
+  for name, fn in (('vmap(StateAxes{enc: 0, dec: None})(tied)', t1), ('vmap(StateAxes{dec: None, enc: 0})(tied)', t2), ('scan(StateAxes{enc: Carry, dec: 0})(tied)', t3)):
+    out[name] = safe(lambda: np.asarray(fn()).tolist())
   for name, fn in (('vmap(in_axes=(0, None))(v, v)', c1), ('vmap(in_axes=(0, None))(Holder(v), v)', c2), ('vmap(in_axes=(StateAxes({Param: None}), 0))(Holder(v), v)', c3),
                    ('vmap(lambda v: v, in_axes=0, out_axes=1)(v)', c4), ('scan(in_axes=(0, None))(v, v)', c5), ('grad(argnums=0)(p, p)', c6), ('vmap(in_axes=(0, None))(m, m)', c7)):
     r = safe(lambda: np.asarray(fn()).tolist())
